@@ -10,6 +10,32 @@
 #![allow(unsafe_op_in_unsafe_fn)]
 
 pub mod spec;
+
+/// Native replay only (`cargo kani playback` builds the crate as a test): a counting global
+/// allocator, so that harnesses about pre-allocation (C14) observe the largest single request
+/// natively, where the `Vec::with_capacity` probe stub is not in effect.
+#[cfg(test)]
+pub mod native_alloc {
+    use std::alloc::{GlobalAlloc, Layout, System};
+    use std::sync::atomic::{AtomicUsize, Ordering};
+    pub static MAX_SINGLE: AtomicUsize = AtomicUsize::new(0);
+    pub struct Counting;
+    unsafe impl GlobalAlloc for Counting {
+        unsafe fn alloc(&self, l: Layout) -> *mut u8 {
+            MAX_SINGLE.fetch_max(l.size(), Ordering::Relaxed);
+            System.alloc(l)
+        }
+        unsafe fn dealloc(&self, p: *mut u8, l: Layout) {
+            System.dealloc(p, l)
+        }
+        unsafe fn realloc(&self, p: *mut u8, l: Layout, n: usize) -> *mut u8 {
+            MAX_SINGLE.fetch_max(n, Ordering::Relaxed);
+            System.realloc(p, l, n)
+        }
+    }
+    #[global_allocator]
+    static GLOBAL: Counting = Counting;
+}
 #[cfg(kani)]
 pub mod stubs;
 #[cfg(kani)]
